@@ -162,3 +162,33 @@ def call_nodes(g: CFG, pred) -> list[tuple[Node, ast.Call]]:
                 if pred(c):
                     out.append((n, c))
     return out
+
+
+LOCK_TARGETS = {'threading.Lock', 'threading.RLock', '_thread.allocate_lock', '_thread.RLock'}
+
+
+def is_lock_ctor(ctx: Ctx, f: FuncInfo, e: ast.AST, depth: int = 0) -> bool:
+    """Is expression ``e`` (in function f) a call creating a new threading lock?  Follows module-level
+    aliases (``LazyLockType = RLock if … else Lock``) and helper functions returning a new lock."""
+    if not isinstance(e, ast.Call) or depth > 3:
+        return False
+    fn = e.func
+    from ..index import dotted
+    d = dotted(fn)
+    if d is None:
+        return False
+    m = f.module
+    full = ctx.idx.resolve_name(m, d)
+    if full in LOCK_TARGETS:
+        return True
+    head = d.split('.')[0]
+    if d in m.assigns:     # alias: NAME = <expr whose leaves are lock classes>
+        v = m.assigns[d]
+        leaves = [x for x in ast.walk(v) if isinstance(x, (ast.Name, ast.Attribute)) and isinstance(getattr(x, 'ctx', None), ast.Load)]
+        cands = [x for x in ([v.body, v.orelse] if isinstance(v, ast.IfExp) else [v])]
+        return bool(cands) and all(ctx.idx.resolve_name(m, dotted(c) or '') in LOCK_TARGETS for c in cands)
+    if full in ctx.idx.functions:   # helper returning a new lock
+        h = ctx.idx.functions[full]
+        rets = [r for r in ast.walk(h.node) if isinstance(r, ast.Return)]
+        return bool(rets) and all(r.value is not None and is_lock_ctor(ctx, h, r.value, depth + 1) for r in rets)
+    return False
